@@ -106,7 +106,10 @@ OPTION_TEMPLATES = [
 ]
 
 ARG_POOL = ["", " ", "%Q", "%", "a", "-1", "0", "5", "99999999999999999999", "\u00e9", "/", "..", "a/b", "*", "[", "(", "\\", "1.2.3", ">=1",
-            "x" * 300, "{}", "$HOME", "~", "a.b.c", "\n", "abc def", "^(", "\U0001F600", ".", "//", "a\x00b"[:1], "--", "'", "\""]
+            "x" * 300, "{}", "$HOME", "~", "a.b.c", "\n", "abc def", "^(", "\U0001F600", ".", "//", "a\x00b"[:1], "--", "'", "\"",
+            "%Y-%m-%d", "%+", "%:::z", "%3f", "%-", "1", "1.0", "^1.2", "~1", ">=1.0.0, <2", "a{2}", "(?P<n>a)", "$1", "${n}", "a\\", "a/../b",
+            "/a/b.tar.gz", ".hidden", "a.", "AbcDef", "snake_case", "kebab-case", "\u00c4\u00d6", "\u00df", "\u0130", "a\tb", "\r\n", "0x10", "1e3",
+            "18446744073709551616", "-0", "+1", " 5 "]
 
 PARAM_SHAPES = ["p%d", "p%d='d'", "+p%d", "+p%d='d'", "*p%d", "*p%d='d'", "$p%d", "p%d=`echo`"]
 
@@ -277,7 +280,7 @@ def run(report):
     # functions with hostile arguments
     functions, _, _, _, _ = E.extract()
     arity = {"Nullary": [0], "Unary": [1], "UnaryOpt": [1, 2], "UnaryPlus": [1, 2, 3], "Binary": [2], "BinaryPlus": [2, 3], "Ternary": [3]}
-    per_fn = 14 if not thorough else 150
+    per_fn = 40 if not thorough else 300
     skip = {"choose"}  # second argument is an alphabet, first a length: bounded separately below
     for name, cls in (functions or []):
         for _ in range(per_fn if cls != "Nullary" else 1):
@@ -312,6 +315,46 @@ def run(report):
                 for argv in (["r"], ["--dry-run", "r"], ["--show", "r"], ["--dump"]):
                     cases.append({"kind": "line:" + shape, "files": {"justfile": text}, "argv": argv})
     n_line = len(cases) - n_cli - n_fn - n_par
+    # hostile settings, attributes and environment files
+    sh = "set shell := [\"%s\", \"-c\"]\n" % C.VSH
+    body = "r a='d' *rest:\n  echo {{a}} {{rest}}\ns:\n  #!%s\n  echo s\n" % C.VSH
+    hostile = [
+        (sh + "set positional-arguments\n" + body, {}), (sh + "set dotenv-load\n" + body, {".env": "A=1\nB\n=3\n\x00\n'\n"}),
+        (sh + "set dotenv-load\n" + body, {".env": "A='unterminated\n"}), (sh + "set dotenv-load\n" + body, {".env": "export A=1\nA=${A}${NOPE}\n"}),
+        (sh + "set dotenv-filename := ''\n" + body, {}), (sh + "set dotenv-path := ''\n" + body, {}), (sh + "set dotenv-path := '/'\n" + body, {}),
+        (sh + "set dotenv-required\n" + body, {}), (sh + "set tempdir := 'nonexistent/dir'\n" + body, {}), (sh + "set tempdir := ''\n" + body, {}),
+        (sh + "set working-directory := 'nonexistent'\n" + body, {}), (sh + "set working-directory := ''\n" + body, {}),
+        ("set shell := ['']\n" + body, {}), ("set shell := ['nonexistent-shell-xyz']\n" + body, {}), ("set shell := ['/']\n" + body, {}),
+        (sh + "set script-interpreter := ['']\nset unstable\n[script]\nq:\n  echo\n" + body, {}),
+        (sh + "set unstable\n[script('')]\nq:\n  echo\n" + body, {}), (sh + "set unstable\n[script('/')]\nq:\n  echo\n" + body, {}),
+        (sh + "[working-directory('nonexistent')]\nq:\n  echo\n" + body, {}), (sh + "[working-directory('')]\nq:\n  echo\n" + body, {}),
+        (sh + "[confirm('')]\nq:\n  echo\n" + body, {}), (sh + "[confirm]\nq:\n  echo\n" + body, {}), (sh + "[doc('')]\nq:\n  echo\n" + body, {}),
+        (sh + "[group('')]\nq:\n  echo\n" + body, {}), (sh + "set unstable\n[script]\n[extension('')]\nq:\n  echo\n" + body, {}),
+        (sh + "set unstable\n[script]\n[extension('/../x')]\nq:\n  echo\n" + body, {}), (sh + "set export\nunexport a\n" + body, {}),
+        (sh + "set quiet\nset fallback\n" + body, {}), (sh + "set ignore-comments\nq:\n  # {{a}}\n  #\\\n  x\n" + body, {}),
+        (sh + "q $a $b='x' +$c='y':\n  echo\n" + body, {}), (sh + "export a := 'x'\nunexport b\n" + body, {}),
+        (sh + "mod? nothere\nimport? 'nothere.just'\n" + body, {}), (sh + "mod m 'm.just'\n" + body, {"m.just": "mod n 'm.just'\n"}),
+        (sh + "import 'a.just'\n" + body, {"a.just": "import 'justfile'\n"}), (sh + "mod m\n" + body, {"m/justfile": "x:\n", "m.just": "x:\n"}),
+        (sh + "alias q := r\nalias q2 := q\n" + body, {}), (sh + "q: (r 'a' 'b' 'c') (s)\n" + body, {}),
+        (sh + "x := `exit 1`\n" + body, {}), (sh + "x := shell('exit 3')\n" + body, {}), (sh + "x := env('NOPE_%d')\n" % 1 + body, {}),
+        (sh + "x := error('boom')\n" + body, {}), (sh + "x := assert('a' == 'b', 'm')\n" + body, {}), (sh + "x := if 'a' =~ '(' { 'b' } else { 'c' }\n" + body, {}),
+        (sh + "x := require('nonexistent-binary-xyz')\n" + body, {}), (sh + "set unstable\nx := which('')\n" + body, {}),
+        (sh + "x := read('nonexistent')\n" + body, {}), (sh + "x := read('/')\n" + body, {}), (sh + "x := blake3_file('/')\n" + body, {}),
+        (sh + "x := sha256_file('')\n" + body, {}), (sh + "x := canonicalize('')\n" + body, {}), (sh + "x := absolute_path('')\n" + body, {}),
+        (sh + "x := parent_directory('/')\n" + body, {}), (sh + "x := file_name('')\n" + body, {}), (sh + "x := without_extension('')\n" + body, {}),
+        (sh + "x := choose('3', '')\n" + body, {}), (sh + "x := choose('-1', 'ab')\n" + body, {}), (sh + "x := choose('3', 'aa')\n" + body, {}),
+        (sh + "x := semver_matches('x', 'y')\n" + body, {}), (sh + "x := replace_regex('a', '(', 'b')\n" + body, {}),
+        (sh + "x := replace_regex('aaa', 'a', '$9${x')\n" + body, {}), (sh + "x := datetime('%s %:z %#z %')\n" + body, {}),
+        (sh + "x := encode_uri_component('\u00e9 /?')\n" + body, {}), (sh + "x := trim_start_matches('aaa', '')\n" + body, {}),
+        (sh + "x := join('a')\n" + body, {}), (sh + "x := join('/', '/', '..', '')\n" + body, {}), (sh + "x := 'a' / ''\n" + body, {}),
+    ]
+    for text, files in hostile:
+        fl = dict(files)
+        fl["justfile"] = text
+        for argv in (["r"], ["r", "1", "2", "3"], ["s"], ["q"], ["--evaluate"], ["--list"], ["--dump"], ["--dump", "--dump-format", "json"], ["--summary"],
+                     ["--dry-run", "r"], ["--choose", "--chooser", C.VSH], ["--command", C.VSH, "x"], ["--show", "q"], ["m::x"], ["--usage", "r"]):
+            cases.append({"kind": "hostile", "files": fl, "argv": argv})
+    n_host = len(cases) - n_cli - n_fn - n_par - n_line
     results = C.pmap(run_cli_case, cases)
     for c, (kind, text) in zip(cases, results):
         if kind is None:
@@ -326,7 +369,7 @@ def run(report):
             sig = "c11-%s:%s" % (kind.split()[0], c["kind"])
         report.failure(sig, "%s: just %r env=%r -> %s" % (kind, c["argv"], c.get("env"), text[-300:]),
                        {"op": "cli", "files": c["files"], "argv": c["argv"], "env": c.get("env"), "observed": kind, "output": text})
-    stats.update({"s2_cli_cases": n_cli, "s2_function_cases": n_fn, "s2_parameter_cases": n_par, "s2_line_cases": n_line,
+    stats.update({"s2_cli_cases": n_cli, "s2_function_cases": n_fn, "s2_parameter_cases": n_par, "s2_line_cases": n_line, "s2_hostile_setting_cases": n_host,
                   "s2_functions": len(functions or [])})
 
     report.coverage.update({"inputs": len(srcs) + len(texts) + len(cases) + sum(len(deep_sources(1)) for _ in depths)})
